@@ -11,7 +11,7 @@ seams.boot()
 from bubus.helpers import retry  # noqa: E402
 
 LEVEL = 'model_checking'
-RULE = ('retries in {0,1,2,3} x wait in {0, 0.5} x backoff_factor in {1, 2} x timeout 1 s x retry_on in {None, (), (Listed,), (Listed, TimeoutError)}; at every attempt the wrapped function asks '
+RULE = ('retries in {0,1,2,3} x wait in {0, 0.5} x backoff_factor in {1, 2, 0.5, 0 (decaying / vanishing waits)} x timeout 1 s x retry_on in {None, (), (Listed,), (Listed, TimeoutError)}; at every attempt the wrapped function asks '
         'the explorer for its outcome in {ok, slow ok (0.7 x timeout), Listed error, Unlisted error, overrun (sleeps past the timeout), caller cancelled during the attempt, Listed error then caller cancelled during the '
         'back-off}: these are free choices, so EVERY outcome sequence is enumerated. Compared with an independent reference of the documented semantics: number and virtual start times of calls, '
         'return value / identity of the raised exception, cancellation never retried or swallowed. non-trivial = at least two attempts or a cancellation; distinct = distinct outcome sequences per configuration')
@@ -142,9 +142,11 @@ def make(spec, loop):
 
 def families(tier):
     out = []
-    for r, w, bf, ro in itertools.product((0, 1, 2, 3), (0, 0.5), (1, 2), ('none', 'listed', 'listed+timeout', 'empty')):
+    for r, w, bf, ro in itertools.product((0, 1, 2, 3), (0, 0.5), (1, 2, 0.5, 0), ('none', 'listed', 'listed+timeout', 'empty')):
         if tier != 'thorough' and r == 3 and bf == 1 and w == 0:
             continue
+        if bf < 1 and (w == 0 or r < 2):
+            continue  # a factor below 1 only shows from the second wait on, and only when there is a wait
         out.append(dict(prop='C19', family='c19.retry', id=f'c19/r{r}-w{w}-b{bf}-{ro}', cfg=dict(bound=0, cap=200000, free=('outcome',), busy=False, horizon=60.0),
                         p=dict(retries=r, wait=w, bf=bf, timeout=1.0, retry_on=ro)))
     return out
